@@ -524,6 +524,44 @@ def suspended_iterators(run: Run, stream):
         gc.collect()
 
 
+def held_attributes(run: Run, stream):
+    """the program keeps an Attribute object or a node's attributes mapping but not the tag node: after any collection
+    reads show the node's attribute and writes reach the tree (seeded C04-9: the back-reference to the node made weak)"""
+    from delb import Document, altered_default_filters
+
+    for how in ("attribute object", "attributes mapping", "attribute from xpath"):
+        case = {"held": how}
+        run.case(stream, case, True)
+        doc = Document('<r><x id="a" k="1"/><y><x id="b"/></y></r>')
+        try:
+            if how == "attribute object":
+                held = doc.root[0]["id"]
+            elif how == "attributes mapping":
+                held = doc.root[0].attributes
+            else:
+                held = [n["id"] for n in doc.root.xpath("//x")]
+            gc.collect()
+            gc.collect()
+            if how == "attribute object":
+                seen = held.value
+                held.value = "new"
+            elif how == "attributes mapping":
+                seen = held["id"].value
+                held["id"] = "new"
+            else:
+                seen = [a.value for a in held][0]
+                held[0].value = "new"
+            with altered_default_filters():
+                now = doc.root[0]["id"].value
+            if seen != "a" or now != "new":
+                run.violation(stream, case, {"why": "a held attribute does not show / write the node's attribute after a collection",
+                                             "read": seen, "tree": now})
+        except Exception as e:  # noqa: BLE001
+            run.violation(stream, case, {"why": f"using a held attribute after a collection raised {type(e).__name__}: {e}"})
+        del doc, held
+        gc.collect()
+
+
 def attr_scope_cases(run: Run, stream):
     """attributes given to an element before it is attached below a default namespace: what the attribute objects and
     the serialization report afterwards must not depend on whether the element's wrapper (and the attribute objects it
@@ -837,6 +875,7 @@ def check(run: Run, lean: dict) -> int:
     rows = []
     # the short special-purpose streams first: they do not depend on the time the long random streams take
     suspended_iterators(run, "suspended iterators")
+    held_attributes(run, "held attributes")
     empty_in_chain(run, "empty text in a chain")
     attr_scope_cases(run, "attributes given before attaching")
     for c in corpus():
